@@ -200,6 +200,16 @@ def opFromData (j : Json) : Except String Json := do
   | .ok _ => return okJ (Json.str "ok")
   | .error e => return errJ (bindErrStr e)
 
+def opFromDataND (j : Json) : Except String Json := do
+  let L ← jStrList (← j.getObjVal? "L")
+  let kind ← (← j.getObjVal? "kind").getStr?
+  let shape ← (← (← j.getObjVal? "shape").getArr?).toList.mapM fun x => x.getNat?
+  let count := shape.foldl (· * ·) 1
+  let flat := List.replicate count (0 : Rat)
+  match (if kind == "vector" then fromDataND L shape flat else fromCovND L shape flat) with
+  | .ok _ => return okJ (Json.str "ok")
+  | .error e => return errJ (bindErrStr e)
+
 /-- `plan`: the prediction steps from `cur` to `out` (binary64 or exact). -/
 def opPlan (j : Json) : Except String Json := do
   let arith := (j.getObjVal? "arith" >>= fun a => a.getStr?).toOption.getD "float"
@@ -593,6 +603,7 @@ def dispatch (j : Json) : Except String Json := do
   | "predict" => opPredict j
   | "update" => opUpdate j
   | "emitted" => opEmitted j
+  | "fromdata_nd" => opFromDataND j
   | "iface" => opIface j
   | "decide" => opDecide j
   | "accept" => opAccept j
